@@ -39,6 +39,8 @@ def seeded_table():
         verdict = "not detected at first" if not v else ("caught (no failing input found)" if "no-failing-input-found" in v else "caught with failing input")
         if m.get("recheck"):
             verdict += "; " + m["recheck"]
+        if m.get("note"):
+            verdict += "; " + m["note"].replace("|", "/")
         fin = m.get("final")
         if fin:
             verdict += "; NOW (%s): %s" % (fin.get("at", "?"), {"input": "caught with failing input", "no-failing-input-found": "caught (no failing input found)",
